@@ -354,17 +354,17 @@ def run(ctx):
     # third sentence of C18 for markets, for ALL programs of the multi-currency pipeline model (coq/GenClear2:
     # Main2_market_zone_isolation, membership in iff form): the member lists the theorem names are compared with the
     # object model and zone isolation is tested on the emitted rows
-    gen_clear2.extra(ctx, out, quick_n=24, thorough_n=300)
+    gen_clear2.extra(ctx, out, quick_n=24, thorough_n=200)
     # first sentence of C18 for ALL programs of the pipeline models (coq/GenRename: Main_/Main2_rename_equivariant under the
     # decidable side condition renaming_ok): the Coq renaming is compared with the renaming the harness performs, and the
     # renamed model output with the implementation's output on the renamed program
-    gen_rename.extra(ctx, out, 45, 900)
+    gen_rename.extra(ctx, out, 45, 500)
     gen_rename.finding_probes(out)      # recorded finding D18d (a code containing the word EXOGENOUS)
     # second and third sentences for ALL sets of economies (coq/GenEmbed: Main2_embedding, Main2_embedding_sat under the
     # decidable embed_ok; Main2_tax_zone_isolation, Main2_dividend_country_isolation): the theorem's `joint` is compared with
     # the joint program the harness builds, embed_ok is evaluated, and components and joint run through the whole-program
     # correspondence
-    gen_embed.extra(ctx, out, 16, 300)
+    gen_embed.extra(ctx, out, 16, 200)
     out.failures.extend(market_code_probe())
     return out
 
